@@ -49,6 +49,7 @@ func reg(r *Rule) { rules[r.ID] = r }
 // Ctx holds the loaded program.
 type Ctx struct {
 	arch   string
+	root   string
 	fset   *token.FileSet
 	pkgs   []*packages.Package
 	prog   *ssa.Program
@@ -69,6 +70,7 @@ type Ctx struct {
 	eff        map[*ssa.Function]*Effects
 	parserList []*Parser
 	nnDepth    int
+	minLenMemo map[*FuncInfo][]ssa.Value
 	mustMemo   map[*ssa.Function]map[string]bool
 	lenPres    map[[2]any]bool
 	nnMemo     map[ssa.Value]bool
@@ -108,7 +110,7 @@ func load(repo, arch string, tests bool) (*Ctx, error) {
 	}
 	prog, _ := ssautil.AllPackages(pkgs, ssa.InstantiateGenerics)
 	prog.Build()
-	ctx := &Ctx{arch: arch, pkgs: pkgs, prog: prog, fi: map[*ssa.Function]*FuncInfo{}}
+	ctx := &Ctx{arch: arch, root: repo, pkgs: pkgs, prog: prog, fi: map[*ssa.Function]*FuncInfo{}}
 	for _, p := range pkgs {
 		ctx.fset = p.Fset
 		sp := prog.Package(p.Types)
@@ -166,8 +168,8 @@ func (c *Ctx) pos(p token.Pos) string {
 	}
 	ps := c.fset.Position(p)
 	rel := ps.Filename
-	if i := strings.Index(rel, "/repo/"); i >= 0 {
-		rel = rel[i+len("/repo/"):]
+	if r, err := filepath.Rel(c.root, rel); err == nil && !strings.HasPrefix(r, "..") {
+		rel = r
 	} else {
 		rel = filepath.Base(rel)
 	}
